@@ -82,7 +82,7 @@ pub const BUILTINS: &[&str] = &[
     "all", "count", "then", ".", "apply", "const", "even", "odd", "abs", "group_all", "contains",
     "permutations", "combinations", "subsequences", "^^", "iterate", "lazy_map", "lazy_filter", "**",
     ".*", "*.", "..", "=>", "join", "<=>", "only", "index", "find", "locate", "uncons", "unsnoc",
-    "input", "read", "read_bytes", "interact", "interact_lines", "||+", "classify",
+    "input", "read", "read_bytes", "interact", "interact_lines", "||+", "classify", "lazy_zip",
 ];
 
 pub const TYPES: &[(&str, fn() -> Ty)] = &[
@@ -376,6 +376,7 @@ impl Model {
                 let mut d = Dict {
                     entries: Vec::new(),
                     default: dv,
+                    amb: false,
                 };
                 for (ke, ve) in kvs {
                     if let Ex::Splat(_) = ke {
@@ -816,20 +817,93 @@ impl Model {
                 }
             }
             ForBody::YieldItem(k, v, into) => {
-                if into.is_some() {
-                    return unknown("yield item into");
+                // per key: without `into` the last value wins; `into f` folds the values of each key
+                // separately (a folding builtin one value at a time, any other function applied to
+                // the list of that key's values afterwards)
+                #[derive(PartialEq, Clone, Copy)]
+                enum Fold {
+                    Last,
+                    First,
+                    Sum,
+                    List,
                 }
-                // without `into`: last value per key wins
-                let mut acc = Dict::new();
+                let mut fold = Fold::Last;
+                let mut post: Option<Rc<FuncV>> = None;
+                if let Some(f) = into {
+                    let fv = self.eval(sc, f)?;
+                    match &fv {
+                        V::Func(ff) => match &**ff {
+                            FuncV::Builtin(n) => match n.as_str() {
+                                "sum" => fold = Fold::Sum,
+                                "first" => fold = Fold::First,
+                                "last" => fold = Fold::Last,
+                                "len" | "sort" | "reverse" | "id" => {
+                                    fold = Fold::List;
+                                    post = Some(ff.clone());
+                                }
+                                _ => return unknown("yield item into builtin"),
+                            },
+                            // called once per key in hash order: only predictable if it has no effects
+                            _ => return unknown("yield item into function kind"),
+                        },
+                        _ => return unknown("yield item into non-function"),
+                    }
+                }
+                let mut acc: Vec<(V, Vec<V>)> = Vec::new();
                 let r = self.for_clauses(sc, clauses, &mut |m, inner| {
                     let kv = m.eval(inner, k)?;
                     let kv = m.to_key(kv)?;
+                    let pos = acc.iter().position(|(k2, _)| key_eq(k2, &kv));
+                    if fold == Fold::First && pos.is_some() {
+                        // the fold of this key has finished: the value is not even evaluated
+                        return Ok(());
+                    }
+                    // (the key gets its entry only once its first value has been computed)
                     let vv = m.eval(inner, v)?;
-                    acc.insert(kv, vv);
+                    if fold == Fold::Sum {
+                        match &vv {
+                            V::Int(_) => {}
+                            x if is_num(x) || matches!(x, V::Vector(_)) => return unknown("sum of non-int"),
+                            _ => return throw("argument error: + only accepts numbers"),
+                        }
+                    }
+                    match pos {
+                        Some(j) => acc[j].1.push(vv),
+                        None => acc.push((kv, vec![vv])),
+                    }
                     Ok(())
                 });
                 match r {
-                    Ok(()) | Err(Ctl::Break(0, None)) => Ok(V::Dict(acc)),
+                    Ok(()) | Err(Ctl::Break(0, None)) => {
+                        let mut d = Dict::new();
+                        for (kk, vs) in acc {
+                            let val = match fold {
+                                Fold::Last => match vs.last() {
+                                    Some(x) => x.clone(),
+                                    None => return unknown("yield item: key without value"),
+                                },
+                                Fold::First => match vs.first() {
+                                    Some(x) => x.clone(),
+                                    None => return unknown("yield item: key without value"),
+                                },
+                                Fold::Sum => {
+                                    let mut t = BigInt::zero();
+                                    for x in vs.iter() {
+                                        if let V::Int(n) = x {
+                                            t += n;
+                                        }
+                                    }
+                                    V::Int(t)
+                                }
+                                Fold::List => {
+                                    let f = post.clone().unwrap();
+                                    self.call_func_at(sc, &f, vec![V::List(vs)])?
+                                }
+                            };
+                            d.insert(kk, val);
+                        }
+                        Ok(V::Dict(d))
+                    }
                     Err(Ctl::Break(0, Some(v))) => Ok(v),
                     Err(Ctl::Break(n, v)) => Err(Ctl::Break(n - 1, v)),
                     Err(Ctl::Continue(n)) if n != 0 => Err(Ctl::Continue(n - 1)),
@@ -917,7 +991,12 @@ impl Model {
             V::List(xs) | V::Vector(xs) => Ok(xs.clone()),
             V::Str(s) => Ok(s.chars().map(|c| V::Str(c.to_string())).collect()),
             V::Bytes(b) => Ok(b.iter().map(|x| vint(*x as i64)).collect()),
-            V::Dict(d) => Ok(d.entries.iter().map(|(k, _)| k.clone()).collect()),
+            V::Dict(d) => {
+                if d.amb && !d.entries.is_empty() {
+                    return unknown("key spelling not determined (equal keys of different spellings met)");
+                }
+                Ok(d.entries.iter().map(|(k, _)| k.clone()).collect())
+            }
             V::Stream(s) => self.force_stream(s),
             _ => throw("type error: not iterable"),
         }
@@ -932,7 +1011,12 @@ impl Model {
 
     fn iterate_pairs(&mut self, v: &V) -> R<Vec<(V, V)>> {
         match v {
-            V::Dict(d) => Ok(d.entries.clone()),
+            V::Dict(d) => {
+                if d.amb && !d.entries.is_empty() {
+                    return unknown("key spelling not determined (equal keys of different spellings met)");
+                }
+                Ok(d.entries.clone())
+            }
             V::Stream(StreamV::Fin(xs)) => Ok(xs
                 .iter()
                 .enumerate()
@@ -993,6 +1077,24 @@ impl Model {
                 let nx = self.call_func(f, vec![(**x).clone()])?;
                 Ok(Some(((**x).clone(), StreamV::Iterate(Box::new(nx), f.clone()))))
             }
+            StreamV::Zip(members, f) => {
+                let mut heads = Vec::new();
+                let mut rests = Vec::new();
+                for m in members {
+                    match self.stream_next(m)? {
+                        None => return Ok(None),
+                        Some((x, rest)) => {
+                            heads.push(x);
+                            rests.push(rest);
+                        }
+                    }
+                }
+                let y = match f {
+                    Some(f) => self.call_func(f, heads)?,
+                    None => V::List(heads),
+                };
+                Ok(Some((y, StreamV::Zip(rests, f.clone()))))
+            }
         }
     }
 
@@ -1017,6 +1119,7 @@ impl Model {
             StreamV::Fin(_) => false,
             StreamV::Iota(_) | StreamV::Repeat(_) | StreamV::Cycle(..) | StreamV::Iterate(..) => true,
             StreamV::Map(inner, _) | StreamV::Filter(inner, _) => Model::stream_is_infinite(inner),
+            StreamV::Zip(members, _) => members.iter().all(Model::stream_is_infinite),
         }
     }
 
@@ -1341,6 +1444,13 @@ impl Model {
             Lv::Or(a, b) => ELv::Or(Box::new(self.eval_lv(sc, a)?), Box::new(self.eval_lv(sc, b)?)),
             Lv::And(a, b) => ELv::And(Box::new(self.eval_lv(sc, a)?), Box::new(self.eval_lv(sc, b)?)),
             Lv::Lit(e) => ELv::Lit(self.eval(sc, e)?),
+            Lv::Cmp(args, ops) => {
+                let mut out = Vec::new();
+                for a in args {
+                    out.push(self.eval_lv(sc, a)?);
+                }
+                ELv::DBuiltin(format!("cmp:{}", ops.join(" ")), out)
+            }
             Lv::Destructure(f, args) => {
                 let fv = self.eval(sc, f)?;
                 let mut out = Vec::new();
@@ -1438,7 +1548,7 @@ impl Model {
                 }
                 (V::Dict(d), EIx::Index(i)) => {
                     let k = self.to_key(i.clone())?;
-                    match d.find(&k) {
+                    match d.find_w(&k) {
                         Some(j) => self.modify_existing_index(&mut d.entries[j].1, rest, f),
                         None => match d.default.clone() {
                             Some(dv) => {
@@ -1525,7 +1635,7 @@ impl Model {
                     d.insert(k, value.unwrap_or(V::Null));
                     Ok(())
                 } else {
-                    match d.find(&k) {
+                    match d.find_w(&k) {
                         Some(j) => self.set_index(&mut d.entries[j].1, rest, value, every),
                         None => throw("type error: setting dictionary: nothing at key"),
                     }
@@ -1698,6 +1808,46 @@ impl Model {
                 _ => throw("type error: destructuring structure failed"),
             },
             ELv::DBuiltin(name, args) => {
+                // chained comparison pattern: the value (or, with several open positions, its
+                // elements) fills the open positions, then the chain must hold
+                if let Some(ops) = name.strip_prefix("cmp:") {
+                    let ops: Vec<&str> = ops.split(' ').collect();
+                    let slots = args.iter().filter(|a| !matches!(a, ELv::Lit(_))).count();
+                    if slots == 0 {
+                        return throw("argument error: chained comparison destructuring: all literals");
+                    }
+                    let rvalues = if slots == 1 {
+                        vec![rhs]
+                    } else {
+                        if let V::Dict(d) = &rhs {
+                            if d.entries.len() >= 2 {
+                                return unknown("unpacking a dict with several keys (hash order)");
+                            }
+                        }
+                        self.iterate(&rhs, "comparison unpacking")?
+                    };
+                    let mut it = rvalues.into_iter();
+                    let mut filled = Vec::new();
+                    for a in args.iter() {
+                        match a {
+                            ELv::Lit(v) => filled.push(v.clone()),
+                            _ => match it.next() {
+                                Some(v) => filled.push(v),
+                                None => return throw("argument error: chained comparison ran out of values"),
+                            },
+                        }
+                    }
+                    if it.next().is_some() {
+                        return throw("argument error: chained comparison: too many values");
+                    }
+                    for (i, op) in ops.iter().enumerate() {
+                        let r = crate::builtins::call_builtin(self, sc, op, vec![filled[i].clone(), filled[i + 1].clone()])?;
+                        if !self.truthy(&r)? {
+                            return throw("value error: comparison destructure failed");
+                        }
+                    }
+                    return self.assign_all(sc, args, rt, filled);
+                }
                 // patterns that invert a constructor
                 let res: Vec<V> = match (name.as_str(), &rhs) {
                     ("append", V::List(xs)) | ("+.", V::List(xs)) => match xs.split_last() {
@@ -2041,7 +2191,7 @@ impl Model {
                 }
                 (V::Dict(d), EIx::Index(i)) => {
                     let k = self.to_key(i.clone())?;
-                    match d.find(&k) {
+                    match d.find_w(&k) {
                         Some(j) => self.modify_every_existing_index(sc, &mut d.entries[j].1, rest, f, rv),
                         None => match d.default.clone() {
                             Some(dv) => {
